@@ -104,14 +104,32 @@ def law_event(u, tid, law, thunks, cmp='all', case=None, pre='none', ins=(), sid
 
 
 # ---------------------------------------------------------------------------------------------------
-def validate_shard(scratch, path, want, timeout=3600):
-    d = os.path.dirname(path)
+def validate_shard(scratch, path, want, timeout=3600, module='Trace_Algebra', constants=None):
     cfg = path + '.cfg'
-    tlc.write_cfg(cfg, spec='Spec', constants={'Want': set(want)}, postcondition='TraceAccepted')
-    return tlc.run_tlc('Trace_Algebra', cfg, scratch, env={'TRACE_FILE': path}, workers=1, timeout=timeout, xmx='3g')
+    consts = dict(constants or {})
+    if want is not None:
+        consts['Want'] = set(want)
+    tlc.write_cfg(cfg, spec='Spec', constants=consts or None, postcondition='TraceAccepted')
+    return tlc.run_tlc(module, cfg, scratch, env={'TRACE_FILE': path}, workers=1, timeout=timeout, xmx='3g')
+
+
+def describe_algebra(e, case):
+    """-> (distinctness key, trivial?, sample text)"""
+    if e['op'] == 'law':
+        key = json.dumps([e['law'], case], sort_keys=True, default=repr)
+        outs = [r['tag'] if r['tag'] != 'sig' else absig.sig_str(r['ps']) for r in e['results']]
+        text = '%s %s -> %s' % (e['law'], describe_case(case) if isinstance(case, dict) and 'ins' in case else json.dumps(case, default=repr), outs)
+        return key, False, text
+    key = json.dumps([e['op'], [i['ps'] for i in e['ins']], e['flags']], sort_keys=True)
+    trivial = all(not i['ps'] for i in e['ins'])
+    text = '%s -> %s' % (describe_case(case) if case else e['tid'],
+                         absig.sig_str(e['out']['ps']) if e['out']['tag'] == 'sig' else e['out']['tag'])
+    return key, trivial, text
 
 
 _GEN = None      # set before forking; generators are closures and cannot be pickled
+_DESCRIBE = None
+_MODULE = ('Trace_Algebra', None)
 
 
 def _shard_job(args):
@@ -130,16 +148,7 @@ def _shard_job(args):
             case = e.pop('case', None)
             f.write(json.dumps(e, separators=(',', ':')) + '\n')
             index[e['tid']] = case
-            if e['op'] == 'law':
-                key = json.dumps([e['law'], case], sort_keys=True, default=repr)
-                trivial = False
-                outs = [r['tag'] if r['tag'] != 'sig' else absig.sig_str(r['ps']) for r in e['results']]
-                text = '%s %s -> %s' % (e['law'], describe_case(case) if isinstance(case, dict) and 'ins' in case else json.dumps(case, default=repr), outs)
-            else:
-                key = json.dumps([e['op'], [i['ps'] for i in e['ins']], e['flags']], sort_keys=True)
-                trivial = all(not i['ps'] for i in e['ins'])
-                text = '%s -> %s' % (describe_case(case) if case else e['tid'],
-                                     absig.sig_str(e['out']['ps']) if e['out']['tag'] == 'sig' else e['out']['tag'])
+            key, trivial, text = (_DESCRIBE or describe_algebra)(e, case)
             if not trivial:
                 nontrivial.add(int(hashlib.blake2b(key.encode(), digest_size=8).hexdigest(), 16))
                 if len(samples) < 2 and n % 97 == 13:
@@ -154,7 +163,7 @@ def _shard_job(args):
             d = os.path.join(scratch_dir, '%s-%d' % (name, shard))
             os.makedirs(d, exist_ok=True)
             return d
-    r = validate_shard(S(), path, want)
+    r = validate_shard(S(), path, want, module=_MODULE[0], constants=_MODULE[1])
     err = None
     if not r.ok or r.distinct != n + 1:
         err = 'shard %d: TLC did not accept/consume the trace (%d events, %d states)\n%s' % (shard, n, r.distinct, r.out[-2500:])
@@ -170,12 +179,15 @@ def _shard_job(args):
             'states': r.distinct, 'gen': r.generated, 'wall': r.wall}
 
 
-def run_trace_leg(check, scratch, name, gen, want, nshards=None, classify=None, keep=False):
+def run_trace_leg(check, scratch, name, gen, want, nshards=None, classify=None, keep=False, module='Trace_Algebra',
+                  constants=None, describe=None):
     """gen(shard, nshards) -> iterator of events.  Aggregates verdicts into `check`."""
     nshards = nshards or tlc.NCPU
     d = scratch.sub(name)
-    global _GEN
+    global _GEN, _DESCRIBE, _MODULE
     _GEN = gen
+    _DESCRIBE = describe
+    _MODULE = (module, constants)
     jobs = [(s, nshards, d, want, keep) for s in range(nshards)]
     ctx = multiprocessing.get_context('fork')
     with ctx.Pool(min(nshards, tlc.NCPU)) as pool:
@@ -195,7 +207,10 @@ def run_trace_leg(check, scratch, name, gen, want, nshards=None, classify=None, 
             check.sample(s)
         for tid, clause, case in r['fails']:
             key = classify(tid, clause, case) if classify else clause
-            check.fail(tid, clause, case=case, key=key, desc=describe_case(case))
+            if clause.startswith('HARNESS_'):
+                check.error('harness self-check failed: %s on %s' % (clause, tid))
+                continue
+            check.fail(tid, clause, case=case, key=key, desc=describe_case(case) if isinstance(case, dict) and 'ins' in case else (json.dumps(case, default=repr)[:300] if case else ''))
         ndrift += len(r['drift'])
         for t in r['drift'][:3]:
             check.note('drift (reference model differs from code, contract holds): %s' % '|'.join(t))
